@@ -1,8 +1,9 @@
 /-
   Phase lists with rigorous error control: the algebra element (or response) is computed
   exactly from rational enclosure centres of (cos φ_k, sin φ_k); `prodErr` bounds, at every
-  point of the circle, the distance to the value for the true cosines and sines.
-  Core Lean only.  Soundness: `QSP/Proofs/Ball.lean`.
+  point of the circle, the spectral-norm distance to the value for the true cosines and
+  sines (all exact factors are unitary, so the bound grows linearly with the length).
+  Core Lean only.  Soundness: `QSP/Proofs/BallSound.lean`.
 -/
 import QSP.Model.LAlg
 import QSP.Model.Trig
@@ -13,15 +14,34 @@ def enclList (bits : Nat) (phis : List Rat) : List Encl := phis.map (fun x => tr
 
 def Encl.pair (e : Encl) : Rat × Rat := (e.c, e.s)
 
-/-- `(α, η)` for a rotation factor: `‖R̃‖∞ = |c| + |s|`, `‖R - R̃‖∞ ≤ 2δ` -/
-def Encl.rotBound (e : Encl) : Rat × Rat := (qabs e.c + qabs e.s, 2 * e.δ)
+/-- `(α, η)` for a rotation / phase factor in the spectral norm: the exact factor is unitary,
+    `‖R - R̃‖₂ ≤ |Δc| + |Δs| ≤ 2δ`, hence `‖R̃‖₂ ≤ 1 + 2δ` -/
+def Encl.rotBound (e : Encl) : Rat × Rat := (1 + 2 * e.δ, 2 * e.δ)
 
 /-- the Low-algebra element of the enclosure centres and the pointwise bound `E`:
-    for every `θ`,  `‖ toMat(g̃)(e^{iθ}) - ∏ R(φ_k) W(θ) ‖∞ ≤ E` -/
+    for every `θ`,  `‖ toMat(g̃)(e^{iθ}) - ∏ R(φ_k) W(θ) ‖₂ ≤ E` -/
 def fromAnglesBall (es : List Encl) : Except Err (LA Rat × Rat) := do
   let g ← LA.fromAngles (es.map Encl.pair)
   .ok (g, (prodErr (es.map Encl.rotBound) (1, 0)).2)
 
 def l1 (l : List Rat) : Rat := l.foldr (fun c acc => qabs c + acc) 0
+
+/-- `(α, η)` for the factors of the response product: the first phase operator alone, then
+    `W̃ P̃_k` with `‖W̃ - W‖₂ ≤ wη` (from the square-root enclosure) -/
+def respBounds (wη : Rat) : List Encl → List (Rat × Rat)
+  | [] => []
+  | e0 :: es => e0.rotBound ::
+      es.map (fun e => ((1 + wη) * (1 + 2 * e.δ), wη * (1 + 2 * e.δ) + 2 * e.δ))
+
+/-- `ComputeQSPResponse` at one rational signal value `a`, from `bits`-bit enclosures of the
+    phases' cosines / sines and of `sqrt(1 - a²)`; returns the value for the enclosure centres
+    and a bound on its distance to the response of the mathematical definition -/
+def respBall (so : String) (meas : Option String) (bits : Nat) (a : Rat) (phis : List Rat) :
+    Except Err (Cx × Rat) := do
+  let es := enclList bits phis
+  let bb := sqrtLo (1 - a * a) bits
+  let z ← response Cx.I (Cx.ofRat (1 / 2)) so meas
+    (es.map fun e => (Cx.ofRat e.c, Cx.ofRat e.s)) (Cx.ofRat a) (Cx.ofRat bb)
+  .ok (z, (prodErr (respBounds (1 / (2 : Rat) ^ bits) es) (1, 0)).2)
 
 end QSP
